@@ -4,6 +4,7 @@
   conditions on the oracle's behaviour at the very end of the message (without which the statement is false).
 -/
 import Gzx.Proofs.DMC40
+import Gzx.Proofs.DMBytesCw
 import Gzx.Proofs.DMRoundTripAB
 namespace Gzx.DMHighLevel
 
@@ -80,15 +81,15 @@ theorem encodeMode_ascii (syms : List SymbolInfo) (la : LookAhead) (c : Ctx) :
 
 theorem dispatch_gen {syms : List SymbolInfo} {la : LookAhead} (hNoE : LaNoEdifact la) :
     ∀ (fuel mode : Nat) (c : Ctx) (a : Acc) (c' : Ctx) (mode' : Nat),
-      (∀ x ∈ c.msg, x < 256) → GSt la mode c a → c.newEnc = none → TrailerOK c → c.pos ≤ c.total →
+      (∀ x ∈ c.msg, x < 256) → Bytes c.cw → GSt la mode c a → c.newEnc = none → TrailerOK c → c.pos ≤ c.total →
       LaTailAscii la c.msg c.total → LaX12Tail la c.msg c.total →
       dispatch syms la fuel mode c = .ok (c', mode') →
-      (mode' = ASCII ∨ mode' = BASE256) ∧ ∃ a', (Inv refTables c' a' ∨ ∃ k, k ≤ 1 ∧ Tail refTables c' a' k) ∧
+      (mode' = ASCII ∨ mode' = BASE256) ∧ Bytes c'.cw ∧ ∃ a', (Inv refTables c' a' ∨ ∃ k, k ≤ 1 ∧ Tail refTables c' a' k) ∧
         a'.trailer = a.trailer ∧ c'.msg = c.msg ∧ c'.skipAtEnd = c.skipAtEnd ∧ c'.pos = c'.total := by
   intro fuel
   induction fuel with
   | zero =>
-    intro mode c a c' mode' _ hS _ _ hle _ _ h
+    intro mode c a c' mode' _ hcwB hS _ _ hle _ _ h
     simp only [dispatch] at h
     split at h
     · cases h
@@ -97,13 +98,13 @@ theorem dispatch_gen {syms : List SymbolInfo} {la : LookAhead} (hNoE : LaNoEdifa
       have hend : c.pos = c.total := by
         have := (hasMore_false_iff' c).mp (by simpa using hm); omega
       cases hS with
-      | ascii hI => exact ⟨Or.inl rfl, a, Or.inl hI, rfl, rfl, rfl, hend⟩
+      | ascii hI => exact ⟨Or.inl rfl, hcwB, a, Or.inl hI, rfl, rfl, rfl, hend⟩
       | tail k hk hT hmode =>
-        exact ⟨by rcases hmode with e | ⟨e, _⟩ <;> simp [e], a, Or.inr ⟨k, hk, hT⟩, rfl, rfl, rfl, hend⟩
+        exact ⟨by rcases hmode with e | ⟨e, _⟩ <;> simp [e], hcwB, a, Or.inr ⟨k, hk, hT⟩, rfl, rfl, rfl, hend⟩
       | latched _ _ hm' _ => simp [hm'] at hm
-      | done256 hI _ => exact ⟨Or.inr rfl, a, Or.inl hI, rfl, rfl, rfl, hend⟩
+      | done256 hI _ => exact ⟨Or.inr rfl, hcwB, a, Or.inl hI, rfl, rfl, rfl, hend⟩
   | succ n ih =>
-    intro mode c a c' mode' hb hS hnew htr hle hTA hXT h
+    intro mode c a c' mode' hb hcwB hS hnew htr hle hTA hXT h
     simp only [dispatch] at h
     split at h
     · rename_i hm
@@ -111,11 +112,11 @@ theorem dispatch_gen {syms : List SymbolInfo} {la : LookAhead} (hNoE : LaNoEdifa
       have hend : c.pos = c.total := by
         have := (hasMore_false_iff' c).mp (by simpa using hm); omega
       cases hS with
-      | ascii hI => exact ⟨Or.inl rfl, a, Or.inl hI, rfl, rfl, rfl, hend⟩
+      | ascii hI => exact ⟨Or.inl rfl, hcwB, a, Or.inl hI, rfl, rfl, rfl, hend⟩
       | tail k hk hT hmode =>
-        exact ⟨by rcases hmode with e | ⟨e, _⟩ <;> simp [e], a, Or.inr ⟨k, hk, hT⟩, rfl, rfl, rfl, hend⟩
+        exact ⟨by rcases hmode with e | ⟨e, _⟩ <;> simp [e], hcwB, a, Or.inr ⟨k, hk, hT⟩, rfl, rfl, rfl, hend⟩
       | latched _ _ hm' _ => simp [hm'] at hm
-      | done256 hI _ => exact ⟨Or.inr rfl, a, Or.inl hI, rfl, rfl, rfl, hend⟩
+      | done256 hI _ => exact ⟨Or.inr rfl, hcwB, a, Or.inl hI, rfl, rfl, rfl, hend⟩
     · rename_i hm
       simp only [Bool.not_eq_true', Bool.not_eq_false] at hm
       have hm' : c.pos < c.total := (hasMore_iff' c).mp hm
@@ -128,19 +129,19 @@ theorem dispatch_gen {syms : List SymbolInfo} {la : LookAhead} (hNoE : LaNoEdifa
         unfold TrailerOK; rw [e1, e2]; exact htr
       -- one more round with the result of an encoder call that signalled ASCII
       have finish : ∀ (c1 : Ctx) (a1 : Acc), c1.msg = c.msg → c1.skipAtEnd = c.skipAtEnd → c1.pos ≤ c1.total →
-          c1.newEnc = some ASCII → a1.trailer = a.trailer →
+          Bytes c1.cw → c1.newEnc = some ASCII → a1.trailer = a.trailer →
           (Inv refTables c1 a1 ∨ ∃ k, k ≤ 1 ∧ Tail refTables c1 a1 k) →
           dispatch syms la n ASCII { c1 with newEnc := none } = .ok (c', mode') →
-          (mode' = ASCII ∨ mode' = BASE256) ∧ ∃ a', (Inv refTables c' a' ∨ ∃ k, k ≤ 1 ∧ Tail refTables c' a' k) ∧
+          (mode' = ASCII ∨ mode' = BASE256) ∧ Bytes c'.cw ∧ ∃ a', (Inv refTables c' a' ∨ ∃ k, k ≤ 1 ∧ Tail refTables c' a' k) ∧
             a'.trailer = a.trailer ∧ c'.msg = c.msg ∧ c'.skipAtEnd = c.skipAtEnd ∧ c'.pos = c'.total := by
-        intro c1 a1 e1 e2 hle1 _ htr1 hres hd
+        intro c1 a1 e1 e2 hle1 hB1 _ htr1 hres hd
         obtain ⟨q1, q2, q3, q4⟩ := carry ({ c1 with newEnc := none } : Ctx) e1 e2
         have hS1 : GSt la ASCII ({ c1 with newEnc := none } : Ctx) a1 := by
           rcases hres with hI | ⟨k, hk, hT⟩
           · exact GSt.ascii ⟨hI.dec, hI.text, hI.pend⟩
           · exact GSt.tail k hk ⟨hT.dec, hT.text, hT.pend, hT.full, hT.need⟩ (Or.inl rfl)
-        obtain ⟨r1, a', r2, r3, r4, r5, r6⟩ := ih ASCII _ a1 c' mode' q1 hS1 rfl q2 hle1 q3 q4 hd
-        exact ⟨r1, a', r2, by rw [r3, htr1], by rw [r4]; exact e1, by rw [r5]; exact e2, r6⟩
+        obtain ⟨r1, rB, a', r2, r3, r4, r5, r6⟩ := ih ASCII _ a1 c' mode' q1 hB1 hS1 rfl q2 hle1 q3 q4 hd
+        exact ⟨r1, rB, a', r2, by rw [r3, htr1], by rw [r4]; exact e1, by rw [r5]; exact e2, r6⟩
       cases hS with
       | done256 _ hf => rw [hf] at hm; cases hm
       | ascii hI =>
@@ -171,8 +172,8 @@ theorem dispatch_gen {syms : List SymbolInfo} {la : LookAhead} (hNoE : LaNoEdifa
                     simp [isDigit] at hdig
                   · omega
             obtain ⟨q1, q2, q3, q4⟩ := carry c1 hsf.msg hsf.skip
-            obtain ⟨r1, a', r2, r3, r4, r5, r6⟩ := ih ASCII c1 a1 c' mode' q1 (GSt.ascii hI1) hn1 q2 hle1 q3 q4 h
-            exact ⟨r1, a', r2, by rw [r3, htr1], by rw [r4, hsf.msg], by rw [r5, hsf.skip], r6⟩
+            obtain ⟨r1, rB, a', r2, r3, r4, r5, r6⟩ := ih ASCII c1 a1 c' mode' q1 (ascii_bytes hb hcwB he) (GSt.ascii hI1) hn1 q2 hle1 q3 q4 h
+            exact ⟨r1, rB, a', r2, by rw [r3, htr1], by rw [r4, hsf.msg], by rw [r5, hsf.skip], r6⟩
           | some m =>
             rw [hn1] at h
             simp only at h
@@ -195,9 +196,9 @@ theorem dispatch_gen {syms : List SymbolInfo} {la : LookAhead} (hNoE : LaNoEdifa
             obtain ⟨q1, q2, q3, q4⟩ := carry ({ c1 with newEnc := none } : Ctx) (by rw [hc1]; rfl) (by rw [hc1]; rfl)
             have hle1 : ({ c1 with newEnc := none } : Ctx).pos ≤ ({ c1 with newEnc := none } : Ctx).total := by
               rw [hc1]; exact hle
-            obtain ⟨r1, a', r2, r3, r4, r5, r6⟩ :=
-              ih m _ a c' mode' q1 (GSt.latched code hL hmore1 hcases') rfl q2 hle1 q3 q4 h
-            refine ⟨r1, a', r2, r3, ?_, ?_, r6⟩
+            obtain ⟨r1, rB, a', r2, r3, r4, r5, r6⟩ :=
+              ih m _ a c' mode' q1 (show Bytes c1.cw from ascii_bytes hb hcwB he) (GSt.latched code hL hmore1 hcases') rfl q2 hle1 q3 q4 h
+            refine ⟨r1, rB, a', r2, r3, ?_, ?_, r6⟩
             · rw [r4, hc1]; rfl
             · rw [r5, hc1]; rfl
       | tail k hk hT hmode =>
@@ -232,9 +233,9 @@ theorem dispatch_gen {syms : List SymbolInfo} {la : LookAhead} (hNoE : LaNoEdifa
           rw [hn1, hnew] at h
           simp only at h
           obtain ⟨q1, q2, q3, q4⟩ := carry c1 hsf.msg hsf.skip
-          obtain ⟨r1, a', r2, r3, r4, r5, r6⟩ :=
-            ih ASCII c1 a1 c' mode' q1 (GSt.tail k1 (by omega) hT1 (Or.inl rfl)) (by rw [hn1, hnew]) q2 hle1 q3 q4 h
-          exact ⟨r1, a', r2, by rw [r3, htr1], by rw [r4, hsf.msg], by rw [r5, hsf.skip], r6⟩
+          obtain ⟨r1, rB, a', r2, r3, r4, r5, r6⟩ :=
+            ih ASCII c1 a1 c' mode' q1 (ascii_bytes hb hcwB he) (GSt.tail k1 (by omega) hT1 (Or.inl rfl)) (by rw [hn1, hnew]) q2 hle1 q3 q4 h
+          exact ⟨r1, rB, a', r2, by rw [r3, htr1], by rw [r4, hsf.msg], by rw [r5, hsf.skip], r6⟩
       | latched code hL _ hcases =>
         rcases hcases with ⟨rfl, rfl⟩ | ⟨rfl, rfl⟩ | ⟨rfl, rfl⟩ | ⟨rfl, rfl⟩
         · -- Base 256
@@ -261,11 +262,11 @@ theorem dispatch_gen {syms : List SymbolInfo} {la : LookAhead} (hNoE : LaNoEdifa
                 rcases hres1' with hI | ⟨k, hk, hT⟩
                 · exact GSt.done256 hI hf
                 · exact GSt.tail k hk hT (Or.inr ⟨rfl, hf⟩)
-              obtain ⟨r1, a', r2, r3, r4, r5, r6⟩ := ih BASE256 c1 a1 c' mode' q1 hS1 hn q2 hpt1 q3 q4 h
-              exact ⟨r1, a', r2, by rw [r3, htr1], by rw [r4, hmsg1], by rw [r5, hskip1], r6⟩
+              obtain ⟨r1, rB, a', r2, r3, r4, r5, r6⟩ := ih BASE256 c1 a1 c' mode' q1 (b256_bytes hb hcwB hle he) hS1 hn q2 hpt1 q3 q4 h
+              exact ⟨r1, rB, a', r2, by rw [r3, htr1], by rw [r4, hmsg1], by rw [r5, hskip1], r6⟩
             · rw [hn] at h
               simp only at h
-              exact finish c1 a1 hmsg1 hskip1 hpt1 hn htr1 hres1' h
+              exact finish c1 a1 hmsg1 hskip1 hpt1 (b256_bytes hb hcwB hle he) hn htr1 hres1' h
         · -- C40
           rw [encodeMode_c40] at h
           cases he : c40Encode syms la false c with
@@ -277,7 +278,7 @@ theorem dispatch_gen {syms : List SymbolInfo} {la : LookAhead} (hNoE : LaNoEdifa
               c40_step_post (text := false) hb hL hle hm hnew he
             rw [hn] at h
             simp only at h
-            exact finish c1 a1 hmsg1 hskip1 hpt1 hn htr1 hres1 h
+            exact finish c1 a1 hmsg1 hskip1 hpt1 (c40_bytes hcwB hle hm hnew he) hn htr1 hres1 h
         · -- X12
           rw [encodeMode_x12] at h
           cases he : x12Encode syms la c with
@@ -289,7 +290,7 @@ theorem dispatch_gen {syms : List SymbolInfo} {la : LookAhead} (hNoE : LaNoEdifa
               x12_step_post hL hle hnew (fun p ch e1 e2 e3 => hXT p ch e1 e2 e3) he
             rw [hn] at h
             simp only at h
-            exact finish c1 a1 hmsg1 hskip1 hpt1 hn htr1 hres1 h
+            exact finish c1 a1 hmsg1 hskip1 hpt1 (x12_bytes hcwB hle he) hn htr1 hres1 h
         · -- Text
           rw [encodeMode_text] at h
           cases he : c40Encode syms la true c with
@@ -301,11 +302,20 @@ theorem dispatch_gen {syms : List SymbolInfo} {la : LookAhead} (hNoE : LaNoEdifa
               c40_step_post (text := true) hb hL hle hm hnew he
             rw [hn] at h
             simp only at h
-            exact finish c1 a1 hmsg1 hskip1 hpt1 hn htr1 hres1 h
+            exact finish c1 a1 hmsg1 hskip1 hpt1 (c40_bytes hcwB hle hm hnew he) hn htr1 hres1 h
 
 end Gzx.DMHighLevel
 
 namespace Gzx.DMHighLevel
+
+theorem initCtx_bytes (msg : List Nat) (cfg : Cfg) : Bytes (initCtx msg cfg).cw := by
+  unfold initCtx
+  simp only
+  split
+  · intro x hx; simp [Ctx.write] at hx; omega
+  · split
+    · intro x hx; simp [Ctx.write] at hx; omega
+    · intro x hx; simp at hx
 
 /-- Round trip for every oracle that does not choose EDIFACT (from ASCII), under the two end-of-message
     conditions `LaTailAscii` and `LaX12Tail`. -/
@@ -322,9 +332,9 @@ theorem roundtrip_gen (syms : List SymbolInfo) (la : LookAhead) (msg : List Nat)
     obtain ⟨c1, mode⟩ := r
     rw [hd] at h
     simp only [bind, Except.bind] at h
-    obtain ⟨hmode, a1, hres, htr1, hmsg1, hskip1, hend⟩ :=
+    obtain ⟨hmode, _, a1, hres, htr1, hmsg1, hskip1, hend⟩ :=
       dispatch_gen (syms := syms) hNoE (dispatchFuel msg) ASCII (initCtx msg cfg) a0 c1 mode
-        (by rw [hmsg0]; exact hb) (GSt.ascii hI0) hn0 htr0 hle0 (by rw [hmsg0]; exact hTA) (by rw [hmsg0]; exact hXT) hd
+        (by rw [hmsg0]; exact hb) (initCtx_bytes msg cfg) (GSt.ascii hI0) hn0 htr0 hle0 (by rw [hmsg0]; exact hTA) (by rw [hmsg0]; exact hXT) hd
     have hm1 : c1.msg = msg := by rw [hmsg1, hmsg0]
     have htext : ∀ a : Acc, a.rev.reverse = c1.msg.take c1.pos → a.trailer = a0.trailer → a.text = msg := by
       intro a ht htl
@@ -377,5 +387,55 @@ theorem roundtrip_gen (syms : List SymbolInfo) (la : LookAhead) (msg : List Nat)
           rw [ucw, hT.dec _ hplen, decLoop_padding refTables a1 _ _ (padding_shape _ _)]
           simp only [Except.map]
           rw [htext a1 hT.text htr1]
+
+/-- the codewords `encodeHL` returns are bytes (oracles that never choose EDIFACT, same conditions) -/
+theorem encodeHL_bytes (syms : List SymbolInfo) (la : LookAhead) (msg : List Nat) (cfg : Cfg) (cw : List Nat)
+    (hNoE : LaNoEdifact la)
+    (hTA : LaTailAscii la msg (initCtx msg cfg).total) (hXT : LaX12Tail la msg (initCtx msg cfg).total)
+    (hb : ∀ x ∈ msg, x < 256) (h : encodeHL syms la msg cfg = .ok cw) : Bytes cw := by
+  obtain ⟨a0, hI0, hn0, htr0, hle0, hmsg0, _⟩ := initCtx_inv refTables msg cfg
+  unfold encodeHL at h
+  cases hd : dispatch syms la (dispatchFuel msg) ASCII (initCtx msg cfg) with
+  | error e => rw [hd] at h; simp [bind, Except.bind] at h
+  | ok r =>
+    obtain ⟨c1, mode⟩ := r
+    rw [hd] at h
+    simp only [bind, Except.bind] at h
+    obtain ⟨hmode, hB1, _⟩ :=
+      dispatch_gen (syms := syms) hNoE (dispatchFuel msg) ASCII (initCtx msg cfg) a0 c1 mode
+        (by rw [hmsg0]; exact hb) (initCtx_bytes msg cfg) (GSt.ascii hI0) hn0 htr0 hle0
+        (by rw [hmsg0]; exact hTA) (by rw [hmsg0]; exact hXT) hd
+    cases hu : c1.update syms c1.count with
+    | error e => rw [hu] at h; simp at h
+    | ok c2 =>
+      rw [hu] at h
+      simp only at h
+      cases hc : c2.capacity with
+      | error e => rw [hc] at h; simp at h
+      | ok cap =>
+        rw [hc] at h
+        have hnolatch : ¬ (c1.count < cap ∧ mode ≠ ASCII ∧ mode ≠ BASE256 ∧ mode ≠ EDIFACT) := by
+          rcases hmode with rfl | rfl <;> simp
+        simp only [hnolatch, if_false, Except.ok.injEq] at h
+        subst h
+        obtain ⟨ucw, _⟩ := update_spec hu
+        apply Bytes.append (by rw [ucw]; exact hB1)
+        unfold padding
+        split
+        · have hpf : ∀ n p, Bytes (padFrom n p) := by
+            intro n; induction n with
+            | zero => intro p x hx; simp [padFrom] at hx
+            | succ m ihm =>
+              intro p x hx
+              simp only [padFrom, List.mem_cons] at hx
+              rcases hx with rfl | hx
+              · have := rand253_range p; omega
+              · exact ihm _ x hx
+          intro x hx
+          simp only [List.mem_cons] at hx
+          rcases hx with rfl | hx
+          · decide
+          · exact hpf _ _ x hx
+        · intro x hx; simp at hx
 
 end Gzx.DMHighLevel
